@@ -161,6 +161,9 @@ def parse_tsan(text):
                 continue
             if re.match(r"\s+(Location is|Thread T|As if synchronized|Mutex |SUMMARY)", line) or line.startswith("SUMMARY"):
                 cur = None
+            tt = re.match(r"\s+Thread (T\d+) \(tid=(\d+)", line)
+            if tt:
+                rep.setdefault("tids", {})["thread " + tt.group(1)] = int(tt.group(2))
             g = re.match(r"\s+Location is global '([^']+)' of size (\d+)", line)
             if g:
                 rep["location"], rep["global"] = "global", re.sub(r"\.\d+$", "", g.group(1))
@@ -170,10 +173,26 @@ def parse_tsan(text):
                 rep["location"] = re.match(r"\s+Location is (\w+)", line).group(1)
         reps.append(rep)
     # fatal signals (SEGV, ABRT with handle_abort=1): "ERROR: ThreadSanitizer: SEGV on unknown address ..." + stack
-    for m in re.finditer(r"ERROR: ThreadSanitizer: (\w+) on unknown address[^\n]*\n(?:==\d+==[^\n]*\n)*((?:[^\n]*#\d+ [^\n]*\n)+)", text):
-        stack = [(f.group(1), f.group(2)) for f in re.finditer(r"#\d+ (\S+) (\S+)", m.group(2))]
+    lines = text.split("\n")
+    for i, line in enumerate(lines):
+        m = re.search(r"ERROR: ThreadSanitizer: (\w+) on unknown address", line)
+        if not m:
+            continue
+        stack, j, skipped = [], i + 1, 0
+        while j < len(lines):                     # other threads' stderr may be interleaved: skip a few non-frame
+            f = re.search(r"(?:^|\s)#\d+ (\S+) (\S+)", lines[j])   # lines before / between the frames, stop at the blank line
+            if f:
+                stack.append((f.group(1), f.group(2)))
+            elif stack and not lines[j].strip():
+                break
+            else:
+                skipped += 1
+                if skipped > 8:
+                    break
+            j += 1
         reps.append({"type": "deadly signal " + m.group(1), "accesses": [{"op": "signal", "thread": "?", "stack": stack}],
-                     "location": None, "global": None, "text": m.group(0)[:6000], "complete": True, "deadly": True})
+                     "location": None, "global": None, "text": "\n".join(lines[i:j])[:6000], "complete": True, "deadly": True,
+                     "os_tid": int((re.search(r" T(\d+)\)", line) or [0, 0])[1])})
     return reps
 
 
@@ -187,12 +206,25 @@ def run_harness(exe, cfg, timeout=900):
     """cfg = [nthreads, iters, seed, mode, kinds, m2c]"""
     args = [exe] + [str(x) for x in cfg]
     t = time.time()
+    # ThreadSanitizer writes to its own log file: libc's assertion text and the harness' stderr of other threads
+    # would otherwise be interleaved into the middle of its reports
+    import glob, uuid
+    logd = os.path.join(CACHE, "c18tsan")
+    os.makedirs(logd, exist_ok=True)
+    logp = os.path.join(logd, uuid.uuid4().hex)
+    env = dict(TSAN_ENV, TSAN_OPTIONS=TSAN_ENV["TSAN_OPTIONS"] + " log_path=" + logp)
     try:
-        p = subprocess.run(args, env=TSAN_ENV, stdout=subprocess.PIPE, stderr=subprocess.PIPE, text=True,
+        p = subprocess.run(args, env=env, stdout=subprocess.PIPE, stderr=subprocess.PIPE, text=True,
                            errors="replace", timeout=timeout)
         rc, out, err = p.returncode, p.stdout, p.stderr
     except subprocess.TimeoutExpired as e:
         rc, out, err = -999, (e.stdout or b"").decode(errors="replace") if isinstance(e.stdout, bytes) else (e.stdout or ""), "TIMEOUT"
+    for lf in sorted(glob.glob(logp + ".*")):
+        try:
+            err = open(lf, errors="replace").read() + "\n" + err
+            os.remove(lf)
+        except OSError:
+            pass
     r = {"cfg": cfg, "rc": rc, "secs": round(time.time() - t, 1), "res": {}, "mismatch": [], "events": [],
          "done": None, "tsan": parse_tsan(err), "stderr_tail": err[-1500:], "cmd": " ".join(args),
          "page": 4096, "ctxs": {}}
@@ -413,7 +445,23 @@ for m in mismatches:
     break
 for c in crashes:
     dead = [rp for rp in c["tsan"] if rp.get("deadly")]
-    if dead and all(mir2c_downstream(rp, c) for rp in dead):
+
+    def dead_ok(d):
+        if mir2c_downstream(d, c):
+            return True
+        # wild jump (pc in a non-executable / zero page): the fatal stack cannot be unwound at all.  Then -- and
+        # only then -- the faulting thread's own LAST reported access before the signal is judged by rule (b).
+        if any(frame_rel_line(w)[0] for a in d["accesses"] for _, w in a["stack"]) or not d.get("os_tid"):
+            return False
+        last = None
+        for rp in c["tsan"]:
+            if rp.get("deadly") or not rp["complete"]:
+                continue
+            for a in rp["accesses"]:
+                if rp.get("tids", {}).get(a["thread"]) == d["os_tid"]:
+                    last = {"accesses": [a]}
+        return bool(last and mir2c_downstream(last, c))
+    if dead and all(dead_ok(rp) for rp in dead):
         secondary += 1       # fatal signal whose stack passes through a site of mir2c's statics
         continue
     ck.violation({"stage": "tie", "input": {"harness_cmd": c["cmd"], "harness": c["cmd"].split(" ")[1:]}, "impl_output": c["stderr_tail"], "rc": c["rc"],
